@@ -18,18 +18,21 @@ import (
 	"encoding/binary"
 )
 
-func (s *Segment) getDocStoredMetaAndUnCompressed(docNum uint64) (meta, data []byte, err error) {
-	_, storedOffset, n, metaLen, dataLen, err := s.getDocStoredOffsets(docNum)
+func (s *Segment) getDocStoredMetaAndUnCompressed(vdc *visitDocumentCtx, docNum uint64) (meta, data []byte, err error) {
+	_, storedOffset, n, metaLen, dataLen, err := s.getDocStoredOffsets(vdc, docNum)
 	if err != nil {
 		return nil, nil, err
 	}
 
-	meta = s.storedFieldChunkUncompressed[int(storedOffset+n):int(storedOffset+n+metaLen)]
-	data = s.storedFieldChunkUncompressed[int(storedOffset+n+metaLen):int(storedOffset+n+metaLen+dataLen)]
+	meta = vdc.buf[int(storedOffset+n):int(storedOffset+n+metaLen)]
+	data = vdc.buf[int(storedOffset+n+metaLen):int(storedOffset+n+metaLen+dataLen)]
 	return meta, data, nil
 }
 
-func (s *Segment) getDocStoredOffsets(docNum uint64) (indexOffset, storedOffset, n, metaLen, dataLen uint64, err error) {
+// getDocStoredOffsets decompresses the block holding docNum into the caller's
+// context buffer (the segment itself is shared by concurrent and nested readers
+// and must not hold per-call scratch state)
+func (s *Segment) getDocStoredOffsets(vdc *visitDocumentCtx, docNum uint64) (indexOffset, storedOffset, n, metaLen, dataLen uint64, err error) {
 	indexOffset, storedOffset, err = s.getDocStoredOffsetsOnly(docNum)
 	if err != nil {
 		return 0, 0, 0, 0, 0, err
@@ -43,20 +46,20 @@ func (s *Segment) getDocStoredOffsets(docNum uint64) (indexOffset, storedOffset,
 	if err != nil {
 		return 0, 0, 0, 0, 0, err
 	}
-	s.storedFieldChunkUncompressed = s.storedFieldChunkUncompressed[:0]
-	s.storedFieldChunkUncompressed, err = ZSTDDecompress(s.storedFieldChunkUncompressed[:cap(s.storedFieldChunkUncompressed)], compressed)
+	vdc.buf = vdc.buf[:0]
+	vdc.buf, err = ZSTDDecompress(vdc.buf[:cap(vdc.buf)], compressed)
 	if err != nil {
 		return 0, 0, 0, 0, 0, err
 	}
 
 	// the look-ahead for the two length prefixes must not run past the end of
 	// the block: the last record of a block can be shorter than the look-ahead
-	blockLen := uint64(len(s.storedFieldChunkUncompressed))
+	blockLen := uint64(len(vdc.buf))
 	metaLenEnd := storedOffset + binary.MaxVarintLen64
 	if metaLenEnd > blockLen {
 		metaLenEnd = blockLen
 	}
-	metaLenData := s.storedFieldChunkUncompressed[int(storedOffset):int(metaLenEnd)]
+	metaLenData := vdc.buf[int(storedOffset):int(metaLenEnd)]
 	var read int
 	metaLen, read = binary.Uvarint(metaLenData)
 	n += uint64(read)
@@ -65,7 +68,7 @@ func (s *Segment) getDocStoredOffsets(docNum uint64) (indexOffset, storedOffset,
 	if dataLenEnd > blockLen {
 		dataLenEnd = blockLen
 	}
-	dataLenData := s.storedFieldChunkUncompressed[int(storedOffset+n):int(dataLenEnd)]
+	dataLenData := vdc.buf[int(storedOffset+n):int(dataLenEnd)]
 	dataLen, read = binary.Uvarint(dataLenData)
 	n += uint64(read)
 
